@@ -513,6 +513,9 @@ pub fn run(ctx: &Ctx) -> ! {
             "listener_drops",
             "crowd_backlog_checks",
             "scenarios_long",
+            "connects_lazy",
+            "closed_handles_held",
+            "reuse_with_closed_handle_held",
         ],
     };
 
